@@ -690,6 +690,14 @@ def check(ctx):
     ordering(ctx, oa, ob, o2)
     from .. import devices as dv
     dv.check_defaults(ctx, o2, [('Asset', '__init__', 'is_transitory')])
+    # registration (and with it immediate initialisation) happens at one point of the constructor chain only: Asset.__init__
+    for s_ in inv.method_calls(P, 'add_asset'):
+        o2.count()
+        if not (s_.cls is not None and s_.cls.name == 'Asset' and s_.func is not None and s_.func.name in inv.covered(P, {'__init__'})):
+            o2.fail(P, s_.ctx, s_.node, 'System.add_asset is called outside Asset.__init__: an asset that registers itself at another point of its constructor is initialised '
+                    'against a different construction state than the same asset created before the simulation started', file=s_.mod.path, line=s_.line)
+        else:
+            o2.witness(('register', s_.ctx))
     o3 = Ob('C20.3', 'K2', 'add_asset: raise without an active system; append only if absent; initialise immediately, with the active environment, iff the simulation is initialised')
     add_asset(ctx, o3)
     o4 = Ob('C20.4', 'K2+K3', 'simulate: raise first unless active; initialise resource manager and all assets exactly when not yet initialised, then set the flag; always reach env.run; run never resets')
